@@ -314,6 +314,11 @@ def c16(r):
     r.conform(scs, trace_module='Trace_C16', trace_cfg='Trace_C16.cfg', workers=16)
     scs2 = r.gen('Gen_C16', 'Gen_C16_perm.cfg' if r.quick else 'Gen_C16_perm_thorough.cfg', workers=8, timeout=3000)
     r.conform(scs2, trace_module='Trace_C16', trace_cfg='Trace_C16.cfg', workers=16)
+    # the host unloads everything (bloc_deinit_plugins) between grants, revocations, imports and constructors
+    r.mc('BlocPlugin', 'MC_C16_deinit.cfg', 'sub-alphabet with bloc_deinit_plugins (grant, revoke all, unload all, import again, constructor in the untrusted context), all histories of length <= 6')
+    scs3 = r.gen('Gen_C16', 'Gen_C16_deinit.cfg' if r.quick else 'Gen_C16_deinit_thorough.cfg', workers=8, timeout=3000)
+    r.conform(scs3, trace_module='Trace_C16', trace_cfg='Trace_C16.cfg', workers=16)
+    r.extra['bounds'] += '; all histories of length %d over grant, revoke all, unload all (bloc_deinit_plugins), import again, constructor (1 module)' % (5 if r.quick else 7)
 
 
 @prop('C15')
